@@ -1,10 +1,48 @@
-(* Properties_C01.v — obligations of property C01.  Contains only theorem statements closed by
-   `exact <lemma>` and Print Assumptions. *)
-Require Import ObsRun.
+(* Properties_C01.v — obligations of property C01 (basic tuning fields always equal the last
+   error-free reception). *)
+Require Import ObsRun Lemmas_Tuning.
 Local Open Scope Z_scope.
 
-(* non-vacuity: the observer of C01 is evaluated (and holds) along a run of the model that
-   touches every group kind *)
+(* For EVERY history h of API calls with well-formed arguments (16-bit blocks, error codes 0..255,
+   any group type/version, supported or not, binary or hex-string input, clears and
+   re-initialisations anywhere) in which the extended check is never switched on, and for any
+   character/ECC tables: each of the five getters equals the history function last_rx —
+     PI  = block A of the most recent group with ea = 0,
+     PTY = (B / 32) mod 32, TP = (B / 1024) mod 2 of the most recent group with eb = 0,
+     TA  = (B / 16) mod 2,  MS = (B / 8) mod 2 of the most recent type-0 group (B / 4096 = 0) with eb = 0,
+   and -1 (unknown) when there is none since the last clear / init.  Because last_rx only
+   restarts at OClear / OInit, a field never falls back to unknown otherwise. *)
+Theorem C01_tuning : forall conv lut h s, reach conv lut h s -> no_ext h = true ->
+  d_pi (used s) = last_rx rx_pi h /\ d_pty (used s) = last_rx rx_pty h /\ d_tp (used s) = last_rx rx_tp h
+  /\ d_ta (used s) = last_rx rx_ta h /\ d_ms (used s) = last_rx rx_ms h.
+Proof.
+  intros conv lut h s Hr Hn.
+  pose proof (reach_bproj conv lut h s Hr) as Hb. pose proof (reach_wf_hist conv lut h s Hr) as Hw.
+  assert (forall f, tuning f = true -> getf f (used s) = last_rx (sel_of f) h) as Hall.
+  { intros f Hf. destruct (tuning_last_rx lut f Hf h Hw Hn) as [_ Hv]. rewrite <- Hv, <- Hb. reflexivity. }
+  repeat split; [exact (Hall SPi eq_refl)|exact (Hall SPty eq_refl)|exact (Hall STp eq_refl)
+                |exact (Hall STa eq_refl)|exact (Hall SMs eq_refl)].
+Qed.
+Print Assumptions C01_tuning.
+
+(* the same as the observer evaluated on the library after every call *)
+Theorem C01_observer : forall conv lut h s o, reach conv lut h s -> wf_op o ->
+  obs_C01 (o :: h) (snap_of s) (snap_of (fst (step conv lut s o))) (snd (step conv lut s o)) (ret_of o) = true.
+Proof. exact C01_observer_holds. Qed.
+Print Assumptions C01_observer.
+
+(* the masks and shifts of the sources agree with the arithmetic reading on all 65536 blocks *)
+Theorem C01_bit_fields : forall b, 0 <= b < 65536 ->
+  get_pty b = (b / 32) mod 32 /\ get_tp b = (b / 1024) mod 2 /\ get_ta b = (b / 16) mod 2
+  /\ get_ms b = (b / 8) mod 2 /\ get_group b = b / 4096.
+Proof.
+  intros b Hb. repeat split;
+    [apply get_pty_spec|apply get_tp_spec|apply get_ta_spec|apply get_ms_spec|apply get_group_spec]; exact Hb.
+Qed.
+Print Assumptions C01_bit_fields.
+
 Example C01_scenario : check_run_u (observer_u 1) scenario = true.
 Proof. vm_compute. reflexivity. Qed.
-Print Assumptions C01_scenario.
+Example C01_nontrivial :
+  let s := run_u (firstn 15 scenario) in sn_pi (snap_of s) = 12801 /\ sn_pty (snap_of s) = 4 /\ sn_ta (snap_of s) = 0.
+Proof. vm_compute. repeat split. Qed.
